@@ -75,6 +75,8 @@ package ssh
 //@   ensures [every-certificate-inserted-on-success] result == nil ==> forall(i, 0 <= i && i < len(certs), (typeof(certs[i]) == *ssh.Certificate && certBlob(blobid(certs[i]))) ==>
 //@     exists(c, a0 <= c && c < calls(Agent.Add), key.certid(arg(Agent.Add, c, 1).Certificate) == blobid(certs[i]) && ret(Agent.Add, c, 0) == nil))
 //@   ensures [no-wholesale-removal] calls(Agent.RemoveAll) == ra0
+//@   ensures [a-refused-insert-is-an-error] result == nil ==> forall(c, a0 <= c && c < calls(Agent.Add), ret(Agent.Add, c, 0) == nil)
+//@   ensures [refresh-failure-is-an-error] ret(refreshKeys, f0, 0) != nil ==> result != nil
 //@   ensures [key-material-untouched] a.addedKey.PrivateKey == old(a.addedKey.PrivateKey) && a.addedKey.LifetimeSecs == old(a.addedKey.LifetimeSecs)
 //@   loop 1:
 //@     invariant calls(refreshKeys) == f0 + 1 && calls(Agent.RemoveAll) == ra0 && calls(Agent.Add) >= a0
